@@ -287,9 +287,14 @@ def firstBad (cfg : Cfg) : List Ev → Option Ev
      r<E>:<p>              server replies to E's current (connection, wire id) with payload p
      u<c>:<id>:<p>         server sends a reply with wire id `id`, payload p on connection c
      c<E>                  cancel E's context
-     x<c>                  server closes connection c
+     x<c>                  server closes connection c (stalled writes on it fail; the other stalled writes complete)
+     g                     the server stops reading: every write stalls (tcp: the write lock stays taken, later
+                           exchanges of that connection are registered and block before their write)
+     o                     the server reads again: stalled writes complete
+     f<k>                  the stalled writes fail; k=1 on udp: "message too long" (the connection stays open)
   out  : `pre=<summary> log=<group>|<group>|…`, one group of `,`-separated tokens per op:
      q<E>:<c>:<id>  i<c>:<id>:<p> | i-  m<E>:<ID>:<p>  e<E>:cancel|err  x<c> | x-
+     w<E>:<c>:<id> (E's write, carrying wire id `id`, is stalled)  b<E> (E is registered and waits for the write lock)
      and one last group: k<c> for every exhausted connection the client closed (end of life)
      harness only (the model never emits them): t<E> timeout, T script abandoned, z<E> caller's buffer modified,
      y<E> query altered beyond the ID
@@ -320,6 +325,12 @@ inductive Op where
   | raw (c id p : Nat)
   | cancel (e : Nat)
   | kill (c : Nat)
+  /-- the server stops reading: from now on every write of the client stalls -/
+  | gate
+  /-- the server reads again: the stalled writes complete -/
+  | ungate
+  /-- the stalled writes fail (`1`: with "message too long", which leaves a UDP connection open) -/
+  | fail (k : Nat)
   deriving Repr
 
 def opOfChars : List Char → Option Op
@@ -336,6 +347,9 @@ def opOfChars : List Char → Option Op
   | 'u' :: r => match natsOf r with | some [c, id, p] => some (.raw c id p) | _ => none
   | 'c' :: r => match natsOf r with | some [e] => some (.cancel e) | _ => none
   | 'x' :: r => match natsOf r with | some [c] => some (.kill c) | _ => none
+  | ['g'] => some .gate
+  | ['o'] => some .ungate
+  | 'f' :: r => match natsOf r with | some [k] => some (.fail k) | _ => none
   | _ => none
 
 /-- tokens of the log -/
@@ -349,6 +363,10 @@ inductive Tok where
   | killed (c : Nat)
   | nokill
   | timeout (e : Nat)
+  /-- the write of `e` (wire id `id`, connection `c`) is stalled -/
+  | held (e c id : Nat)
+  /-- `e` is registered and waits for the tcp write lock -/
+  | blocked (e : Nat)
   /-- harness only: the rest of the script was abandoned after a timeout -/
   | abort
   /-- harness only: the caller's query buffer of `e` was modified -/
@@ -364,6 +382,8 @@ def tokOfChars : List Char → Option Tok
   | 'z' :: r => (natOfChars r).map .mutated
   | 'y' :: r => (natOfChars r).map .corrupt
   | 'q' :: r => match natsOf r with | some [e, c, id] => some (.q e c id) | _ => none
+  | 'w' :: r => match natsOf r with | some [e, c, id] => some (.held e c id) | _ => none
+  | 'b' :: r => (natOfChars r).map .blocked
   | 'i' :: r => match natsOf r with | some [c, id, p] => some (.inj c id p) | _ => none
   | 'm' :: r => match natsOf r with | some [e, mid, p] => some (.msg e mid p) | _ => none
   | 'e' :: r =>
@@ -387,6 +407,8 @@ def strOfTok : Tok → String
   | .killed c => s!"x{c}"
   | .nokill => "x-"
   | .timeout e => s!"t{e}"
+  | .held e c id => s!"w{e}:{c}:{id}"
+  | .blocked e => s!"b{e}"
   | .abort => "T"
   | .mutated e => s!"z{e}"
   | .corrupt e => s!"y{e}"
@@ -396,6 +418,33 @@ def groupOfChars (cs : List Char) : Option (List Tok) :=
 
 def strOfGroup (g : List Tok) : String :=
   if g.isEmpty then "-" else ",".intercalate (g.map strOfTok)
+
+/-- canonical order inside a group: what the server did, results by exchange, stalled writes by
+    (connection, id), lock waiters by exchange, queries by (connection, id), the rest -/
+def tokClass : Tok → Nat
+  | .inj _ _ _ | .noinj | .killed _ | .nokill => 0
+  | .msg _ _ _ | .err _ _ => 1
+  | .held _ _ _ => 2
+  | .blocked _ => 3
+  | .q _ _ _ => 4
+  | _ => 5
+
+def tokKey : Tok → Nat × Nat
+  | .msg e _ _ | .err e _ | .blocked e => (e, 0)
+  | .held _ c id | .q _ c id => (c, id)
+  | _ => (0, 0)
+
+def tokLe (a b : Tok) : Bool :=
+  tokClass a < tokClass b ||
+  (tokClass a == tokClass b && tokClass a != 0 &&
+    ((tokKey a).1 < (tokKey b).1 || ((tokKey a).1 == (tokKey b).1 && (tokKey a).2 ≤ (tokKey b).2))) ||
+  (tokClass a == 0 && tokClass b == 0)
+
+def insertTok (x : Tok) : List Tok → List Tok
+  | [] => [x]
+  | y :: t => if tokLe y x then y :: insertTok x t else x :: y :: t
+
+def canon (g : List Tok) : List Tok := g.foldl (fun acc t => insertTok t acc) []
 
 /-- the prefix: `pre` sequential exchanges (start, correct reply, return), summarised per
     connection as (queries seen, highest wire id + 1, no id seen twice) plus the number of
@@ -452,6 +501,11 @@ structure RunSt where
   /-- exchanges that got their connection from a fresh dial (no retry) -/
   newConn : List Nat
   retries : List Nat      -- one entry per retry of an exchange
+  tcp : Bool := false
+  /-- the server is not reading: writes stall -/
+  gated : Bool := false
+  /-- exchanges whose write is stalled (they are registered, their bytes are with the fake connection) -/
+  held : List Nat := []
 
 def openOn (s : State) (c : Nat) (e : Nat) : Bool :=
   match s.pcs e with
@@ -472,20 +526,39 @@ def defaultPick (r : RunSt) : Nat :=
     if !st.1 && st.2 && !r.killed.contains c then c else r.nconns
 
 def findQ (g : List Tok) (e : Nat) : Option (Nat × Nat) :=
-  g.findSome? fun | .q e' c id => if e' = e then some (c, id) else none | _ => none
+  g.findSome? fun
+    | .q e' c id => if e' = e then some (c, id) else none
+    | .held e' c id => if e' = e then some (c, id) else none
+    | _ => none
+
+/-- Reserve (as the pool does for busy and new connections) and addQueueC -/
+def regStart (cfg : Cfg) (r : RunSt) (known : List Nat) (e c : Nat) : RunSt :=
+  let isNew := c ≥ r.nconns
+  let busy := known.any (openOn r.s c)
+  let s := if isNew || busy then step cfg r.s (.reserve c) else r.s
+  { r with s := step cfg s (.addQ e c), nconns := max r.nconns (c + 1),
+           newConn := if isNew then e :: r.newConn else r.newConn.erase e }
+
+/-- the server is not reading: the write stalls; on tcp, behind a stalled write of the same
+    connection, the exchange does not even get the write lock -/
+def stallStart (r : RunSt) (e : Nat) : RunSt × List Tok :=
+  match r.s.pcs e with
+  | .registered c' q _ =>
+    if r.tcp && r.held.any (openOn r.s c') then (r, [.blocked e])
+    else ({ r with held := r.held ++ [e] }, [.held e c' q])
+  | _ => (r, [])
+
+def writeStart (cfg : Cfg) (r : RunSt) (e : Nat) : RunSt × List Tok :=
+  let s := step cfg r.s (.write e true false)
+  match s.pcs e with
+  | .waiting c' q _ => ({ r with s := s }, [.q e c' q])
+  | _ => ({ r with s := s }, [])
 
 /-- one attempt of `e` on connection `c`: Reserve (as the pool does for busy and new connections),
     addQueueC, write. Returns the tokens. -/
 def doStart (cfg : Cfg) (r : RunSt) (known : List Nat) (e c : Nat) : RunSt × List Tok :=
-  let isNew := c ≥ r.nconns
-  let busy := known.any (openOn r.s c)
-  let s := if isNew || busy then step cfg r.s (.reserve c) else r.s
-  let s := step cfg s (.addQ e c)
-  let s := step cfg s (.write e true false)
-  let r := { r with s := s, nconns := max r.nconns (c + 1), newConn := if isNew then e :: r.newConn else r.newConn.erase e }
-  match s.pcs e with
-  | .waiting c' q _ => (r, [.q e c' q])
-  | _ => (r, [])
+  let r1 := regStart cfg r known e c
+  if r.gated then stallStart r1 e else writeStart cfg r1 e
 
 /-- after a reply reached connection `c`: the exchange whose channel is full takes it and returns -/
 def drain (cfg : Cfg) (r : RunSt) (known : List Nat) : RunSt × List Tok :=
@@ -554,29 +627,88 @@ def qKey : Tok → Nat × Nat
   | .q _ c id => (c, id)
   | _ => (0, 0)
 
-/-- every victim leaves through `<-c.ctx.Done()` and runs its deferred delete -/
+/-- every victim leaves — through `<-c.ctx.Done()` if it waits in the `select`, through a failed write /
+    the write lock's `select` if it is still registered — and runs its deferred delete -/
 def killVictims (cfg : Cfg) (r : RunSt) (victims : List Nat) : RunSt :=
-  victims.foldl (fun (r : RunSt) e => { r with s := step cfg (step cfg r.s (.dead e)) (.delQ e) }) r
+  victims.foldl (fun (r : RunSt) e =>
+    { r with s := step cfg (step cfg (step cfg r.s (.dead e)) (.write e false false)) (.delQ e) }) r
 
 def giveUpAll (cfg : Cfg) (r : RunSt) (quit : List Nat) : RunSt :=
   quit.foldl (fun (r : RunSt) e => { r with s := step cfg r.s (.giveUp e) }) r
 
-/-- the server closes connection `c` -/
-def killConn (cfg : Cfg) (r : RunSt) (known : List Nat) (c : Nat) (g : List Tok) : RunSt × List Tok :=
-  let r1 : RunSt := { r with s := step cfg r.s (.close c), killed := c :: r.killed }
-  let victims := known.filter (isWaitingOn r1.s c)
-  let r2 := killVictims cfg r1 victims
-  -- retry or give up: the observed decision, else ExchangeContext's rule
+def isRegistered (s : State) (e : Nat) : Bool :=
+  match s.pcs e with
+  | .registered _ _ _ => true
+  | _ => false
+
+def isInsideOn (s : State) (c : Nat) (e : Nat) : Bool :=
+  match s.pcs e with
+  | .registered c' _ _ | .waiting c' _ _ => c' == c
+  | _ => false
+
+/-- the exchanges that just failed retry or give up: the observed decision, else ExchangeContext's rule -/
+def settle (cfg : Cfg) (r : RunSt) (known : List Nat) (victims : List Nat) (g : List Tok) : RunSt × List Tok :=
   let retry := victims.filter fun e =>
     match findQ g e with
     | some _ => true
     | none => if g.contains (.err e false) then false
-              else !r2.newConn.contains e && (r2.retries.filter (· == e)).length < 5
+              else !r.newConn.contains e && (r.retries.filter (· == e)).length < 5
   let quit := victims.filter fun e => !retry.contains e
-  let r3 := giveUpAll cfg r2 quit
+  let r3 := giveUpAll cfg r quit
   let r4 : RunSt := { r3 with retries := retry ++ r3.retries }
   let res := startGroup cfg r4 known retry g
-  (res.1, [.killed c] ++ quit.map (fun e => Tok.err e false) ++ res.2)
+  (res.1, quit.map (fun e => Tok.err e false) ++ res.2)
+
+/-- connection `c` dies (the server closed it, or a write on it failed) -/
+def killConn (cfg : Cfg) (r : RunSt) (known : List Nat) (c : Nat) (g : List Tok) : RunSt × List Tok :=
+  let r1 : RunSt := { r with s := step cfg r.s (.close c), killed := c :: r.killed }
+  let victims := known.filter (isInsideOn r1.s c)
+  let r2 := killVictims cfg r1 victims
+  let r2 : RunSt := { r2 with held := r2.held.filter fun e => !victims.contains e }
+  let res := settle cfg r2 known victims g
+  (res.1, [.killed c] ++ res.2)
+
+/-- the server reads again: the stalled writes complete, then the writes of those that waited for the
+    write lock; whoever finds a reply in its channel takes it -/
+def openGate (cfg : Cfg) (r : RunSt) (known : List Nat) : RunSt × List Tok :=
+  let pend := known.filter fun e => isRegistered r.s e && !r.held.contains e
+  let res := (r.held ++ pend).foldl (fun (acc : RunSt × List Tok) e =>
+      let s := step cfg acc.1.s (.write e true false)
+      match s.pcs e with
+      | .waiting c' q _ => ({ acc.1 with s := s }, acc.2 ++ [Tok.q e c' q])
+      | _ => ({ acc.1 with s := s }, acc.2)) ({ r with gated := false, held := [] }, [])
+  let res2 := drain cfg res.1 known
+  (res2.1, res2.2 ++ res.2)
+
+def connOf (s : State) (e : Nat) : Option Nat :=
+  match s.pcs e with
+  | .registered c _ _ | .waiting c _ _ | .leaving c _ _ => some c
+  | _ => none
+
+def dedupNat : List Nat → List Nat
+  | [] => []
+  | x :: t => if t.contains x then dedupNat t else x :: dedupNat t
+
+/-- the stalled writes fail -/
+def failGate (cfg : Cfg) (r : RunSt) (known : List Nat) (k : Nat) (g : List Tok) : RunSt × List Tok :=
+  if !r.gated then (r, [])
+  else if !r.tcp && k == 1 then
+    -- udp, "message too long": the exchanges return the error, the connection stays
+    let hs := r.held
+    let r1 : RunSt := { r with gated := false, held := [] }
+    let r2 := killVictims cfg r1 hs
+    settle cfg r2 known hs g
+  else
+    let cs := dedupNat (r.held.filterMap (connOf r.s))
+    cs.foldl (fun (acc : RunSt × List Tok) c =>
+      let res := killConn cfg acc.1 known c g
+      (res.1, acc.2 ++ res.2)) ({ r with gated := false }, [])
+
+/-- the (connection, wire id) of the last query of `e` that reached the server -/
+def lastQuery (e : Nat) : List Ev → Option (Nat × Nat)
+  | [] => none
+  | .query e' c id :: t => if e' = e then some (c, id) else lastQuery e t
+  | _ :: t => lastQuery e t
 
 def runOp (cfg : Cfg) (r : RunSt) (known : List Nat) (op : Op) (g : List Tok) : RunSt × List Tok :=
   match op with
@@ -584,9 +716,12 @@ def runOp (cfg : Cfg) (r : RunSt) (known : List Nat) (op : Op) (g : List Tok) : 
     | .burst es => startGroup cfg r known (es.map (·.1)) g
     | .hold es => holdGroup cfg r known (es.map (·.1)) g
     | .reply e p =>
-      match curAssign e r.s.hist with
-      | some (c, id) => inject cfg r known c id p
-      | none => (r, [.noinj])
+      -- (the server cannot answer a query it has not seen a byte of: `e` waits for the write lock)
+      if isRegistered r.s e && !r.held.contains e then (r, [.noinj])
+      else
+        match (if r.held.contains e then curAssign e r.s.hist else lastQuery e r.s.hist) with
+        | some (c, id) => inject cfg r known c id p
+        | none => (r, [.noinj])
     | .raw c id p => inject cfg r known c id p
     | .cancel e =>
       match r.s.pcs e with
@@ -595,8 +730,24 @@ def runOp (cfg : Cfg) (r : RunSt) (known : List Nat) (op : Op) (g : List Tok) : 
         let s2 := step cfg s1 (.delQ e)
         let s3 := step cfg s2 (.giveUp e)
         ({ r with s := s3 }, [.err e true])
+      | .registered _ _ _ =>
+        if r.held.contains e then (r, [])      -- inside Write: nothing happens before the write returns
+        else
+          -- waiting for the write lock: `<-ctx.Done()` in writeTCP, the write never happens
+          let s1 := step cfg r.s (.write e false false)
+          let s2 := step cfg s1 (.delQ e)
+          let s3 := step cfg s2 (.giveUp e)
+          ({ r with s := s3 }, [.err e true])
       | _ => (r, [])
-    | .kill c => if c < r.nconns && !r.killed.contains c then killConn cfg r known c g else (r, [.nokill])
+    | .kill c =>
+      if c < r.nconns && !r.killed.contains c then
+        let res := killConn cfg { r with gated := false } known c g
+        let res2 := openGate cfg res.1 known
+        (res2.1, res.2 ++ res2.2)
+      else (r, [.nokill])
+    | .gate => ({ r with gated := true }, [])
+    | .ungate => if r.gated then openGate cfg r known else (r, [])
+    | .fail k => failGate cfg r known k g
 
 def opExchanges : Op → List (Nat × Nat)
   | .start e cid => [(e, cid)]
@@ -619,17 +770,39 @@ def runOps (cfg : Cfg) (known : List Nat) : RunSt → List Op → List (List Tok
   | r, [], _ => [endGroup r]
   | r, op :: ops, gs =>
     let (r', toks) := runOp cfg r known op (gs.headD [])
-    toks :: runOps cfg known r' ops gs.tail
+    canon toks :: runOps cfg known r' ops gs.tail
 
-/-- history (newest first) told by a log -/
-def histOfLog (gs : List (List Tok)) : List Ev :=
-  gs.foldl (fun h g => g.foldl (fun h t =>
-    match t with
-    | .q e c id => .query e c id :: .assign e c id :: h
-    | .inj c id p => .reply c id p :: h
-    | .msg e mid p => .ret e (some (mid, p)) :: h
-    | .err e _ => .ret e none :: h
-    | _ => h) h) []
+/-- the first query / stalled write of `e` in the rest of the log -/
+def nextAssign (e : Nat) (rest : List Tok) : Option (Nat × Nat) := findQ rest e
+
+/-- history (newest first) told by a log (flattened, in order). The wire id of an exchange is
+    revealed by its (possibly stalled) write; an exchange seen waiting for the write lock (`b`) was
+    registered by then, its wire id is revealed by its later write. -/
+def histOfToks : List Ev → List Tok → List Ev
+  | h, [] => h
+  | h, t :: rest =>
+    let h' :=
+      match t with
+      | .q e c id => if curAssign e h == some (c, id) && !returned e h && !(h.contains (.query e c id))
+                     then .query e c id :: h else .query e c id :: .assign e c id :: h
+      | .held e c id => .assign e c id :: h
+      | .blocked e =>
+        match nextAssign e rest with
+        | some (c, id) => .assign e c id :: h
+        | none => h
+      | .inj c id p => .reply c id p :: h
+      | .msg e mid p => .ret e (some (mid, p)) :: h
+      | .err e _ => .ret e none :: h
+      | _ => h
+    histOfToks h' rest
+
+/-- inside a group the log lists results before queries; chronologically an exchange's query comes
+    before its result (an exchange whose stalled write completes may return in the same group) -/
+def chrono (g : List Tok) : List Tok :=
+  g.filter (fun t => tokClass t == 0) ++ g.filter (fun t => tokClass t == 2 || tokClass t == 3 || tokClass t == 4) ++
+  g.filter (fun t => tokClass t == 1 || tokClass t == 5)
+
+def histOfLog (gs : List (List Tok)) : List Ev := histOfToks [] (gs.map chrono).flatten
 
 def strOfEv : Ev → String
   | .assign e c id => s!"assign-e{e}-c{c}-id{id}"
@@ -646,6 +819,9 @@ def scriptInit (pconns : List Conn) : State :=
   { conns := fun c => pconns.getD c {}, chans := fun _ => .empty, nchan := 0,
     pcs := fun _ => .idle, hist := [], taken := [] }
 
+def scriptRun (pconns : List Conn) (tcp : Bool) : RunSt :=
+  { s := scriptInit pconns, nconns := pconns.length, killed := [], newConn := [], retries := [], tcp := tcp }
+
 def kvChars (toks : List String) (key : String) : Option (List Char) := (kvGet toks key).map String.toList
 
 def run (case impl : String) : String × String :=
@@ -656,12 +832,11 @@ def run (case impl : String) : String × String :=
     let known := cids.map (·.1)
     let pconns := preRun pre []
     let cfg : Cfg := scriptCfg cids pconns
-    let s0 : State := scriptInit pconns
     let itoks := words impl
     let ipre := (kvChars itoks "pre").bind preOfChars
     let ilog := (kvChars itoks "log").bind fun cs => (splitC '|' cs).mapM groupOfChars
     let mpre : PreSum := ⟨pconns.map fun c => (c.nextQid, c.nextQid, true), 0, 0⟩
-    let r0 : RunSt := ⟨s0, pconns.length, [], [], []⟩
+    let r0 : RunSt := scriptRun pconns (kvNat toks "tcp" == some 1)
     let mlog := runOps cfg known r0 ops (ilog.getD [])
     let mout := s!"pre={strOfPre mpre} log={"|".intercalate (mlog.map strOfGroup)}"
     let verdict :=
